@@ -8,9 +8,15 @@ flat : dict path -> num|buf  (nested dict/list of the library, flattened)
 
 
 def num(x):
-    x = int(x)
+    """Num of a non-negative integer.  Values the library hands back may be anything (a negative number after a
+    signed/unsigned slip, None, a float): those become a sequence no Num ever equals, so that the judge reports
+    them instead of the harness dying with a machinery failure."""
+    try:
+        x = int(x)
+    except Exception:
+        return [998, 998]
     if x < 0:
-        raise ValueError("negative")
+        return [999, 999]
     out = []
     while x:
         out.append(x & 0xFF)
